@@ -50,10 +50,11 @@ Definition within (xi : I.type) (v tol : Q) : bool :=
   I.subset (I.mul prec (Iz (Zpos (Qden tol))) (I.sub prec xi (Iq v)))
            (I.bnd (F.fromZ (- Qnum tol)) (F.fromZ (Qnum tol))).
 
-(** tolerances: 2^-45 (1 + |value|) for point checks; 2^-29 (1 + |d|) where the implementation evaluated the
-    function at a rounded argument *)
+(** tolerances: 2^-45 (1 + |value|) for point checks; 2^-28 (1 + |d|)(1 + |value|) where the implementation evaluated
+    the function at a rounded argument (|f'| <= 1 + 2|f|) *)
 Definition tol45 : Q := 1 # 35184372088832.
 Definition Qabs_ (x : Q) : Q := if Qle_bool 0 x then x else Qopp x.
 Definition mapfn_ok (k : mapkind) (d r : Q) : bool := within (mapfn_I k d) r (tol45 * (1 + Qabs_ r)).
 Definition invmapfn_ok (k : mapkind) (r d : Q) : bool := within (invmapfn_I k r) d (tol45 * (1 + Qabs_ d)).
-Definition mapfn_near (k : mapkind) (d r : Q) : bool := within (mapfn_I k d) r ((1 # 536870912) * (1 + Qabs_ d)).
+Definition tol_near (d r : Q) : Q := (1 # 268435456) * (1 + Qabs_ d) * (1 + Qabs_ r).
+Definition mapfn_near (k : mapkind) (d r : Q) : bool := within (mapfn_I k d) r (tol_near d r).
